@@ -85,19 +85,18 @@ theorem pack_le (size bv : Nat) : pack size false bv = toLE (size / 8) bv := by
       rw [Nat.shiftRight_eq_div_pow, Nat.shiftRight_eq_div_pow, Nat.add_mul, Nat.pow_add, Nat.div_div_eq_div_mul]
       ring_nf
 
-theorem foldl_unpack (data : List Nat) :
-    data.reverse.foldl (fun v byte => (v <<< 8) + byte) 0 = fromLE data := by
-  rw [List.foldl_reverse]
+theorem foldr_unpack (data : List Nat) :
+    List.foldr (fun x y => y <<< 8 + x) 0 data = fromLE data := by
   induction data with
   | nil => rfl
   | cons b bs ih =>
-    simp only [List.foldr_cons, fromLE, ih, Nat.shiftLeft_eq]
+    rw [List.foldr_cons, ih, fromLE, Nat.shiftLeft_eq]
     omega
 
 theorem unpack_le (size : Nat) (data : List Nat) (h : data.length = size / 8) :
     unpack size false data = .ok (fromLE data) := by
   unfold unpack
-  simp [h, foldl_unpack]
+  simp [h, List.foldl_reverse, foldr_unpack]
 
 /-! ### reading a field of a written word -/
 
@@ -136,5 +135,358 @@ theorem bvSet_word (n w L a b : Nat) (v : Int) (hw : w < 2 ^ (8 * n)) (hab : a <
   have c4 : ¬ (b > 8 * n) := by omega
   rw [if_neg c1, if_neg c2, if_neg c3, if_neg c4]
   rfl
+
+
+/-! ### helpers about the bitfun functions -/
+
+theorem assert_ok {c : Bool} (h : Model.Reloc.assert c = .ok ()) : c = true := by
+  unfold Model.Reloc.assert at h
+  by_cases hc : c = true
+  · exact hc
+  · simp [hc] at h
+
+theorem assert_true : Model.Reloc.assert true = .ok () := rfl
+
+theorem assert_false : Model.Reloc.assert false = .error .AssertionError := rfl
+
+theorem wrapNegative_ok {v : Int} {bits : Nat} {r : Int} (h : wrapNegative v bits = .ok r) :
+    -(2 ^ (bits - 1)) ≤ v ∧ v < 2 ^ bits ∧ r = v % 2 ^ bits := by
+  unfold wrapNegative at h
+  simp only at h
+  split at h
+  · cases h
+  · rename_i hc
+    cases h
+    have hc' : -(2 ^ (bits - 1)) ≤ v ∧ v < 2 ^ bits - 1 + 1 := by simpa using hc
+    exact ⟨hc'.1, by omega, rfl⟩
+
+theorem wrapNegative_of {v : Int} {bits : Nat} (h1 : -(2 ^ (bits - 1)) ≤ v) (h2 : v < 2 ^ bits) :
+    wrapNegative v bits = .ok (v % 2 ^ bits) := by
+  unfold wrapNegative
+  simp only
+  rw [if_neg]
+  simp only [not_not]
+  exact ⟨h1, by omega⟩
+
+theorem wrapNegative_err {v : Int} {bits : Nat} (h : v < -(2 ^ (bits - 1)) ∨ 2 ^ bits ≤ v) :
+    wrapNegative v bits = .error .ValueError := by
+  unfold wrapNegative
+  simp only
+  rw [if_pos]
+  intro hc
+  omega
+
+/-! ## riscv J-type scatter (`b_imm20`, `cb_imm11`, `cbl_imm11`) -/
+
+def jWord (w : Nat) (r : Int) : Nat :=
+  writeBits 32 (writeBits 32 (writeBits 32 (writeBits 32 w 21 10 (stored 10 (r % 1024)))
+    20 1 (stored 1 (r / 1024 % 2))) 12 8 (stored 8 (r / 2048 % 256))) 31 1 (stored 1 (r / 524288 % 2))
+
+theorem data4 {data : List Nat} (hlen : data.length = 4) (hb : Bytes data) :
+    data = toLE 4 (fromLE data) ∧ fromLE data < 2 ^ 32 := by
+  refine ⟨by rw [← hlen, toLE_fromLE data hb], ?_⟩
+  have := fromLE_lt data hb
+  rw [hlen] at this
+  exact this
+
+theorem jScatter_eq {data : List Nat} (r : Int) (hlen : data.length = 4) (hb : Bytes data) :
+    Riscv.jScatter data r = .ok (toLE 4 (jWord (fromLE data) r)) := by
+  obtain ⟨hd, hw⟩ := data4 hlen hb
+  generalize fromLE data = w at hd hw
+  subst hd
+  unfold Riscv.jScatter jWord
+  have p10 : (0 : Int) < 1024 := by decide
+  simp only [bind, Except.bind]
+  rw [bvSet_word 4 w 4 21 31 _ hw (by decide) (by decide) (by decide) (by norm_num; exact Int.emod_lt_of_pos _ (by decide))]
+  simp only
+  rw [bvSet_word 4 _ 4 20 21 _ (writeBits_lt (stored_lt _ _) (by decide)) (by decide) (by decide) (by decide)
+    (by norm_num; exact Int.emod_lt_of_pos _ (by decide))]
+  simp only
+  rw [bvSet_word 4 _ 4 12 20 _ (writeBits_lt (stored_lt _ _) (by decide)) (by decide) (by decide) (by decide)
+    (by norm_num; exact Int.emod_lt_of_pos _ (by decide))]
+  simp only
+  rw [bvSet_word 4 _ 4 31 32 _ (writeBits_lt (stored_lt _ _) (by decide)) (by decide) (by decide) (by decide)
+    (by norm_num; exact Int.emod_lt_of_pos _ (by decide))]
+
+theorem jWord_bits (w : Nat) (r : Int) :
+    bits (jWord w r) 31 1 = stored 1 (r / 524288 % 2) ∧ bits (jWord w r) 12 8 = stored 8 (r / 2048 % 256)
+    ∧ bits (jWord w r) 20 1 = stored 1 (r / 1024 % 2) ∧ bits (jWord w r) 21 10 = stored 10 (r % 1024) := by
+  unfold jWord
+  refine ⟨?_, ?_, ?_, ?_⟩
+  · rw [bits_write_same (stored_lt _ _) (by decide)]
+  · rw [bits_write_other (stored_lt _ _) (by decide) (by decide), bits_write_same (stored_lt _ _) (by decide)]
+  · rw [bits_write_other (stored_lt _ _) (by decide) (by decide), bits_write_other (stored_lt _ _) (by decide) (by decide),
+      bits_write_same (stored_lt _ _) (by decide)]
+  · rw [bits_write_other (stored_lt _ _) (by decide) (by decide), bits_write_other (stored_lt _ _) (by decide) (by decide),
+      bits_write_other (stored_lt _ _) (by decide) (by decide), bits_write_same (stored_lt _ _) (by decide)]
+
+theorem stored_small {w : Nat} {v : Int} (h0 : 0 ≤ v) (h1 : v < 2 ^ w) : (stored w v : Int) = v := by
+  rw [stored_cast]; exact Int.emod_eq_of_lt h0 h1
+
+/-- the J-type decoder reads back `2·r` (sign-extended from 21 bits) -/
+theorem rvJOffset_jWord (w : Nat) (r : Int) (h0 : 0 ≤ r) (h1 : r < 1048576) :
+    rvJOffset (jWord w r) = Spec.Bits.wrapS 21 (2 * r) := by
+  obtain ⟨b31, b12, b20, b21⟩ := jWord_bits w r
+  unfold rvJOffset
+  rw [b31, b12, b20, b21]
+  congr 1
+  push_cast
+  rw [stored_small (by omega) (by norm_num; omega), stored_small (by omega) (by norm_num; omega),
+    stored_small (by omega) (by norm_num; omega), stored_small (by omega) (by norm_num; omega)]
+  omega
+
+
+theorem bind_ok {α β : Type} {x : Except Model.Token.Err α} {f : α → Except Model.Token.Err β} {r : β}
+    (h : (x >>= f) = .ok r) : ∃ a, x = .ok a ∧ f a = .ok r := by
+  cases x with
+  | error e => simp [bind, Except.bind] at h
+  | ok a => exact ⟨a, rfl, by simpa [bind, Except.bind] using h⟩
+
+theorem even_of_beq {x : Int} (h : (x % 2 == 0) = true) : x % 2 = 0 := by simpa using h
+
+theorem mod4_of_beq {x : Int} (h : (x % 4 == 0) = true) : x % 4 = 0 := by simpa using h
+
+/-- sign extension of `2·((d/2) mod 2^(n-1))` gives back an even `d` that fits `n` bits -/
+theorem wrapS_double {n : Nat} (hn : 2 ≤ n) {d : Int} (he : d % 2 = 0) (hf : Spec.Bits.fitsS n d) :
+    Spec.Bits.wrapS n (2 * (d / 2 % 2 ^ (n - 1))) = d := by
+  obtain ⟨k, rfl⟩ : ∃ k, n = k + 2 := ⟨n - 2, by omega⟩
+  unfold Spec.Bits.fitsS at hf
+  unfold Spec.Bits.wrapS
+  have hP : (0 : Int) < 2 ^ k := two_pow_pos_int k
+  have e1 : (2 : Int) ^ (k + 2 - 1) = 2 * 2 ^ k := by
+    have : k + 2 - 1 = k + 1 := by omega
+    rw [this, Int.pow_succ]; ring
+  have e2 : (2 : Int) ^ (k + 2) = 4 * 2 ^ k := by rw [Int.pow_succ, Int.pow_succ]; ring
+  rw [e1] at hf ⊢
+  rw [e2]
+  generalize (2 : Int) ^ k = Q at *
+  -- d = 2 * h, -Q ≤ h < Q, m = h mod 2Q
+  have hd : d = 2 * (d / 2) := by omega
+  generalize d / 2 = h at *
+  subst hd
+  have hh : -Q ≤ h ∧ h < Q := by omega
+  by_cases hneg : 0 ≤ h
+  · have m : h % (2 * Q) = h := Int.emod_eq_of_lt hneg (by omega)
+    rw [m]
+    have m2 : 2 * h % (4 * Q) = 2 * h := Int.emod_eq_of_lt (by omega) (by omega)
+    rw [m2, if_pos (by omega)]
+  · have m : h % (2 * Q) = h + 2 * Q := by
+      have : (h + 2 * Q) % (2 * Q) = h + 2 * Q := Int.emod_eq_of_lt (by omega) (by omega)
+      rw [Int.add_emod_right] at this
+      exact this
+    rw [m]
+    have m2 : 2 * (h + 2 * Q) % (4 * Q) = 2 * h + 4 * Q := by
+      have : (2 * h + 4 * Q) % (4 * Q) = 2 * h + 4 * Q := Int.emod_eq_of_lt (by omega) (by omega)
+      rw [← this]; congr 1; ring
+    rw [m2, if_neg (by omega)]
+    omega
+
+/-- what a successful riscv `b_imm20` (= rvc `cb_imm11`, `cbl_imm11`) did -/
+theorem bImm20_ok {S P : Int} {data out : List Nat} (hlen : data.length = 4) (hb : Bytes data)
+    (h : Riscv.bImm20 S data P = .ok out) :
+    S % 2 = 0 ∧ P % 2 = 0 ∧ -(2 ^ 19) ≤ (S - P) / 2 ∧ (S - P) / 2 < 2 ^ 20
+      ∧ out = toLE 4 (jWord (fromLE data) ((S - P) / 2 % 2 ^ 20)) := by
+  unfold Riscv.bImm20 at h
+  obtain ⟨_, a1, h⟩ := bind_ok h
+  obtain ⟨_, a2, h⟩ := bind_ok h
+  obtain ⟨r, a3, h⟩ := bind_ok h
+  obtain ⟨w1, w2, w3⟩ := wrapNegative_ok a3
+  subst w3
+  rw [jScatter_eq _ hlen hb] at h
+  cases h
+  exact ⟨even_of_beq (assert_ok a1), even_of_beq (assert_ok a2), by simpa using w1, w2, rfl⟩
+
+/-- C10(2)/C11 for the J-type relocations: a successful apply of a representable reference makes the
+    instruction word designate exactly `S` -/
+theorem bImm20_target {S P : Int} {data out : List Nat} (hlen : data.length = 4) (hb : Bytes data)
+    (h : Riscv.bImm20 S data P = .ok out) (hfit : Spec.Bits.fitsS 21 (S - P)) :
+    P + rvJOffset (wordLE out) = S := by
+  obtain ⟨hS, hP, _, _, rfl⟩ := bImm20_ok hlen hb h
+  have hr0 : 0 ≤ (S - P) / 2 % 2 ^ 20 := Int.emod_nonneg _ (by norm_num)
+  have hr1 : (S - P) / 2 % 2 ^ 20 < 1048576 := by
+    have := Int.emod_lt_of_pos ((S - P) / 2) (show (0 : Int) < 2 ^ 20 by norm_num)
+    norm_num at this ⊢; exact this
+  rw [wordLE_eq, fromLE_toLE _ _ (by
+    unfold jWord; exact writeBits_lt (stored_lt _ _) (by decide)), rvJOffset_jWord _ _ hr0 hr1]
+  have := wrapS_double (n := 21) (by decide) (d := S - P) (by omega) hfit
+  simp only [show 21 - 1 = 20 from rfl] at this
+  rw [this]; omega
+
+/-- EXACT acceptance region of `b_imm20`: even addresses and `(S-P)/2 ∈ [-2^19, 2^20)` — the upper half
+    `[2^19, 2^20)` is NOT representable (finding) -/
+theorem bImm20_accepts {S P : Int} {data : List Nat} (hlen : data.length = 4) (hb : Bytes data)
+    (hS : S % 2 = 0) (hP : P % 2 = 0) (h1 : -(2 ^ 19) ≤ (S - P) / 2) (h2 : (S - P) / 2 < 2 ^ 20) :
+    ∃ out, Riscv.bImm20 S data P = .ok out := by
+  unfold Riscv.bImm20
+  have a1 : Model.Reloc.assert (S % 2 == 0) = .ok () := by simp [Model.Reloc.assert, hS]
+  have a2 : Model.Reloc.assert (P % 2 == 0) = .ok () := by simp [Model.Reloc.assert, hP]
+  simp only [a1, a2, bind, Except.bind]
+  rw [wrapNegative_of (by simpa using h1) h2]
+  simp only
+  exact ⟨_, jScatter_eq _ hlen hb⟩
+
+theorem bImm20_rejects {S P : Int} {data : List Nat}
+    (h : S % 2 ≠ 0 ∨ P % 2 ≠ 0 ∨ (S - P) / 2 < -(2 ^ 19) ∨ 2 ^ 20 ≤ (S - P) / 2) :
+    ∃ e, Riscv.bImm20 S data P = .error e := by
+  unfold Riscv.bImm20
+  by_cases hS : S % 2 = 0
+  · by_cases hP : P % 2 = 0
+    · have a1 : Model.Reloc.assert (S % 2 == 0) = .ok () := by simp [Model.Reloc.assert, hS]
+      have a2 : Model.Reloc.assert (P % 2 == 0) = .ok () := by simp [Model.Reloc.assert, hP]
+      simp only [a1, a2, bind, Except.bind]
+      rw [wrapNegative_err (by
+        rcases h with h | h | h | h
+        · exact absurd hS h
+        · exact absurd hP h
+        · left; simpa using h
+        · right; exact h)]
+      exact ⟨_, rfl⟩
+    · have a1 : Model.Reloc.assert (S % 2 == 0) = .ok () := by simp [Model.Reloc.assert, hS]
+      have a2 : Model.Reloc.assert (P % 2 == 0) = .error .AssertionError := by simp [Model.Reloc.assert, hP]
+      simp only [a1, a2, bind, Except.bind]
+      exact ⟨_, rfl⟩
+  · have a1 : Model.Reloc.assert (S % 2 == 0) = .error .AssertionError := by simp [Model.Reloc.assert, hS]
+    simp only [a1, bind, Except.bind]
+    exact ⟨_, rfl⟩
+
+
+/-! ### token-based relocations: one plain `bit_range` field -/
+
+theorem dataN {data : List Nat} {n : Nat} (hlen : data.length = n) (hb : Bytes data) :
+    data = toLE n (fromLE data) ∧ fromLE data < 2 ^ (8 * n) := by
+  refine ⟨by rw [← hlen, toLE_fromLE data hb], ?_⟩
+  have := fromLE_lt data hb
+  rw [hlen] at this
+  exact this
+
+/-- `Relocation.apply` through a token with a plain field `[b, e)`: succeeds exactly on `[-2^w, 2^w)` and
+    rewrites just that slice with `v mod 2^w` -/
+theorem applyToken_range {size b e : Nat} {nm : String} {sg : Bool} {data : List Nat} {v : Int}
+    (hlen : data.length = size / 8) (hbe : b < e) :
+    applyToken size false ⟨nm, false, [(b, e)], sg⟩ data v =
+      if -(2 ^ (e - b)) ≤ v ∧ v < 2 ^ (e - b)
+      then .ok (toLE (size / 8) (writeBits size (fromLE data) b (e - b) (stored (e - b) v)))
+      else if 2 ^ (e - b) ≤ v then .error .ValueError else .error .AssertionError := by
+  unfold applyToken
+  rw [unpack_le size data hlen]
+  simp only [setField, Bool.false_eq_true, if_false]
+  by_cases hacc : -(2 ^ (e - b)) ≤ v ∧ v < 2 ^ (e - b)
+  · rw [if_pos hacc, setSlice_accept _ _ _ _ _ hbe hacc.1 hacc.2]
+    simp only [pack_le, written]
+  · rw [if_neg hacc]
+    by_cases hhi : 2 ^ (e - b) ≤ v
+    · rw [if_pos hhi, setSlice_reject_hi _ _ _ _ _ hbe hhi]
+    · rw [if_neg hhi, setSlice_reject_lo _ _ _ _ _ hbe (by omega)]
+
+/-! ## riscv `b_imm12` (SB token, `imm = bit(31) + bit(7) + bit_range(25,31) + bit_range(8,12)`) -/
+
+def sbWord (w : Nat) (v : Int) : Nat :=
+  writeBits 32 (writeBits 32 (writeBits 32 (writeBits 32 w 8 4 (stored 4 v))
+    25 6 (stored 6 (v / 16))) 7 1 (stored 1 (v / 16 / 64))) 31 1 (stored 1 (v / 16 / 64 / 2))
+
+theorem emod_range (x : Int) (k : Nat) : -(2 ^ k) ≤ x % 2 ^ k ∧ x % 2 ^ k < 2 ^ k := by
+  have h0 := Int.emod_nonneg x (Int.ne_of_gt (two_pow_pos_int k))
+  have h1 := Int.emod_lt_of_pos x (two_pow_pos_int k)
+  have := two_pow_pos_int k
+  omega
+
+theorem stored_emod (k : Nat) (x : Int) : stored k (x % 2 ^ k) = stored k x := by
+  unfold stored; rw [Int.emod_emod_of_dvd _ (Int.dvd_refl _)]
+
+theorem setField_sb (w : Nat) (v : Int) : setField 32 riscvSB_imm w v = .ok (sbWord w v) := by
+  simp only [setField, riscvSB_imm, if_true, List.reverse_cons, List.reverse_nil, List.nil_append, List.cons_append,
+    setConcatRev]
+  rw [setSlice_accept 32 w 8 12 _ (by decide) (emod_range v 4).1 (emod_range v 4).2]
+  simp only
+  rw [setSlice_accept 32 _ 25 31 _ (by decide) (emod_range _ 6).1 (emod_range _ 6).2]
+  simp only
+  rw [setSlice_accept 32 _ 7 8 _ (by decide) (emod_range _ 1).1 (emod_range _ 1).2]
+  simp only
+  rw [setSlice_accept 32 _ 31 32 _ (by decide) (emod_range _ 1).1 (emod_range _ 1).2]
+  simp only [written, sbWord, stored_emod]
+  norm_num
+
+theorem applyToken_sb {data : List Nat} (v : Int) (hlen : data.length = 4) :
+    applyToken 32 false riscvSB_imm data v = .ok (toLE 4 (sbWord (fromLE data) v)) := by
+  unfold applyToken
+  rw [unpack_le 32 data (by rw [hlen])]
+  simp only [setField_sb, pack_le]
+
+theorem sbWord_bits (w : Nat) (v : Int) :
+    bits (sbWord w v) 31 1 = stored 1 (v / 16 / 64 / 2) ∧ bits (sbWord w v) 7 1 = stored 1 (v / 16 / 64)
+    ∧ bits (sbWord w v) 25 6 = stored 6 (v / 16) ∧ bits (sbWord w v) 8 4 = stored 4 v := by
+  unfold sbWord
+  refine ⟨?_, ?_, ?_, ?_⟩
+  · rw [bits_write_same (stored_lt _ _) (by decide)]
+  · rw [bits_write_other (stored_lt _ _) (by decide) (by decide), bits_write_same (stored_lt _ _) (by decide)]
+  · rw [bits_write_other (stored_lt _ _) (by decide) (by decide), bits_write_other (stored_lt _ _) (by decide) (by decide),
+      bits_write_same (stored_lt _ _) (by decide)]
+  · rw [bits_write_other (stored_lt _ _) (by decide) (by decide), bits_write_other (stored_lt _ _) (by decide) (by decide),
+      bits_write_other (stored_lt _ _) (by decide) (by decide), bits_write_same (stored_lt _ _) (by decide)]
+
+theorem rvBOffset_sbWord (w : Nat) (v : Int) : rvBOffset (sbWord w v) = Spec.Bits.wrapS 13 (2 * (v % 4096)) := by
+  obtain ⟨b31, b7, b25, b8⟩ := sbWord_bits w v
+  unfold rvBOffset
+  rw [b31, b7, b25, b8]
+  congr 1
+  push_cast
+  simp only [stored_cast]
+  norm_num
+  omega
+
+theorem bImm12_ok {S P : Int} {data out : List Nat} (hlen : data.length = 4)
+    (h : Riscv.bImm12 S data P = .ok out) :
+    S % 2 = 0 ∧ P % 2 = 0 ∧ -(2 ^ 11) ≤ (S - P) / 2 ∧ (S - P) / 2 < 2 ^ 12
+      ∧ out = toLE 4 (sbWord (fromLE data) ((S - P) / 2 % 2 ^ 12)) := by
+  unfold Riscv.bImm12 Riscv.bImm12Calc at h
+  obtain ⟨v, hv, h⟩ := bind_ok h
+  obtain ⟨_, a1, hv⟩ := bind_ok hv
+  obtain ⟨_, a2, hv⟩ := bind_ok hv
+  obtain ⟨w1, w2, w3⟩ := wrapNegative_ok hv
+  subst w3
+  rw [applyToken_sb _ hlen] at h
+  cases h
+  exact ⟨even_of_beq (assert_ok a1), even_of_beq (assert_ok a2), by simpa using w1, w2, rfl⟩
+
+theorem bImm12_target {S P : Int} {data out : List Nat} (hlen : data.length = 4)
+    (h : Riscv.bImm12 S data P = .ok out) (hfit : Spec.Bits.fitsS 13 (S - P)) :
+    P + rvBOffset (wordLE out) = S := by
+  obtain ⟨hS, hP, _, _, rfl⟩ := bImm12_ok hlen h
+  rw [wordLE_eq, fromLE_toLE _ _ (by unfold sbWord; exact writeBits_lt (stored_lt _ _) (by decide)), rvBOffset_sbWord]
+  rw [Int.emod_emod_of_dvd _ (by norm_num)]
+  have := wrapS_double (n := 13) (by decide) (d := S - P) (by omega) hfit
+  simp only [show 13 - 1 = 12 from rfl] at this
+  norm_num at this ⊢
+  rw [this]; omega
+
+theorem bImm12_accepts {S P : Int} {data : List Nat} (hlen : data.length = 4)
+    (hS : S % 2 = 0) (hP : P % 2 = 0) (h1 : -(2 ^ 11) ≤ (S - P) / 2) (h2 : (S - P) / 2 < 2 ^ 12) :
+    ∃ out, Riscv.bImm12 S data P = .ok out := by
+  unfold Riscv.bImm12 Riscv.bImm12Calc
+  have a1 : Model.Reloc.assert (S % 2 == 0) = .ok () := by simp [Model.Reloc.assert, hS]
+  have a2 : Model.Reloc.assert (P % 2 == 0) = .ok () := by simp [Model.Reloc.assert, hP]
+  simp only [a1, a2, bind, Except.bind]
+  rw [wrapNegative_of (by simpa using h1) h2]
+  simp only
+  exact ⟨_, applyToken_sb _ hlen⟩
+
+theorem bImm12_rejects {S P : Int} {data : List Nat}
+    (h : (S - P) / 2 < -(2 ^ 11) ∨ 2 ^ 12 ≤ (S - P) / 2) : ∃ e, Riscv.bImm12 S data P = .error e := by
+  unfold Riscv.bImm12 Riscv.bImm12Calc
+  simp only [bind, Except.bind]
+  cases a1 : Model.Reloc.assert (S % 2 == 0) with
+  | error e => exact ⟨_, rfl⟩
+  | ok _ =>
+    cases a2 : Model.Reloc.assert (P % 2 == 0) with
+    | error e => exact ⟨_, rfl⟩
+    | ok _ =>
+      simp only
+      have hw : wrapNegative ((S - P) / 2) 12 = .error .ValueError := by
+        apply wrapNegative_err
+        rcases h with h | h
+        · left; simpa using h
+        · right; exact h
+      rw [hw]
+      exact ⟨_, rfl⟩
 
 end Proofs.Reloc
